@@ -402,6 +402,8 @@ def check_match_loop(repo, rep, tier):
 
 
 def run(repo: Repo, rep, tier: str):
+    from vlib import memo
+    rep.guarded(memo.check, repo, rep, "C05-R6", [(ORDER, "Order"), (ORDERS_STATE, "OrdersState")], "order and order registry")
     rep.exhaustive = True
     rep.assume("backtest mode; exchange ledgers / trade store / position are event sinks while Order methods are interpreted")
     rep.guarded(check_transitions, repo, rep)
